@@ -89,7 +89,7 @@ func FromString[T fixed.Dx](str string) (Int[T], error) {
 		if value, err = strconv.ParseInt(parts[0], 10, 64); err != nil {
 			return 0, errs.Wrap(err)
 		}
-		if value < 0 {
+		if value < 0 || parts[0][0] == '-' {
 			neg = true
 			value = -value
 		}
